@@ -281,7 +281,8 @@ def tag_rules(rep, prog, cfg):
 def subsystem_rules(rep, prog, cfg):
     rule = "C20.subsystem-tables"
     bs = body_by_name(prog, "mpd_client::client::Subsystem::as_str")
-    ff = [b for b in prog.bodies.values() if norm(b.name).startswith("mpd_client::client::Subsystem::from_frame")]
+    # the name -> variant table: found by what it constructs (string compares leading to Subsystem variants), not by name
+    ff = [b for b in prog.bodies.values() if b.crate == "mpd_client" and not b.raw.get("derived") and len(parse_table(b, "client::Subsystem")[0]) >= 3]
     if len(bs) != 1 or not ff:
         rep.fail(rule + ".anchor", cfg, "client/mod.rs", "Subsystem::as_str / from_frame not found")
         return
